@@ -18,6 +18,9 @@ pub struct Graph {
     /// 0: all modules in one directory; 1: two directories whose files share base names (`m0.oal`, `d/m0.oal`,
     /// `m1.oal`, `d/m1.oal`, ...), so that one relative spelling designates different files from different places
     pub layout: u8,
+    /// a module whose body does not compile (an unbound name), if any: a cycle or a missing import anywhere in the
+    /// reachable graph is reported in preference to it, and nothing is compiled then
+    pub broken: Option<usize>,
 }
 
 impl Graph {
@@ -91,6 +94,9 @@ impl Graph {
             }
             t.push_str(" };\n");
             t.push_str("let f x = { 'w x };\n");
+            if self.broken == Some(i) {
+                t.push_str("let zzbroken = zznowhere;\n");
+            }
             for q in &names {
                 t.push_str(&format!("let g_{q} = {q}.f v;\n"));
             }
@@ -170,12 +176,13 @@ impl Graph {
         }
     }
     pub fn to_json(&self) -> Value {
-        json!({"n": self.n, "edges": self.edges, "layout": self.layout})
+        json!({"n": self.n, "edges": self.edges, "layout": self.layout, "broken": self.broken})
     }
     pub fn from_json(v: &Value) -> Graph {
         Graph {
             n: v["n"].as_u64().unwrap_or(1) as usize,
             layout: v["layout"].as_u64().unwrap_or(0) as u8,
+            broken: v["broken"].as_u64().map(|b| b as usize),
             edges: v["edges"]
                 .as_array()
                 .map(|a| {
@@ -220,7 +227,7 @@ impl Loads {
                         }
                     }
                 }
-                return (Graph { n, edges, layout: 0 }, "exhaustive");
+                return (Graph { n, edges, layout: 0, broken: None }, "exhaustive");
             }
             i -= block;
         }
@@ -244,7 +251,8 @@ impl Loads {
             }
         }
         let layout = rng.below(4) as u8;
-        (Graph { n, edges, layout }, "random")
+        let broken = if rng.chance(1, 6) { Some(rng.below(n)) } else { None };
+        (Graph { n, edges, layout, broken }, "random")
     }
 }
 
@@ -367,6 +375,17 @@ fn check_log(g: &Graph, r: &RunResult) -> Vec<String> {
     }
     let missing = g.has_missing();
     let cyclic = g.has_cycle();
+    let broken = g.broken.is_some_and(|b| reach[b]);
+    if broken && !missing && !cyclic {
+        // the only thing wrong is the body of one reachable module: a resolution error, after its imports compiled
+        if r.ok || r.err_kind != "NotInScope" {
+            p.push(format!("a module that does not compile was not reported as such: ok={} {}", r.ok, r.err_kind));
+        }
+        return p;
+    }
+    if (missing || cyclic) && r.log.iter().any(|e| e.op == "compile") {
+        p.push("a module was compiled although the import graph has a cycle or a missing import".into());
+    }
     if r.ok {
         if missing || cyclic {
             p.push(format!("load succeeded although the reachable graph has {}", if cyclic { "a cycle" } else { "a missing import" }));
@@ -541,6 +560,7 @@ pub fn run(ctx: &Ctx) -> i32 {
         n: 2,
         edges: vec![vec![(1, 0)], vec![]],
         layout: 0,
+        broken: None,
     };
     let u = |i: usize| Sources::locator(&g.file(i)).url().to_string();
     let bad = RunResult {
